@@ -105,7 +105,11 @@ func (ex *Exec) forkAndMerge(fr *Frame, b *ssa.BasicBlock, c *Term, J *ssa.Basic
 		}
 		stk := st.Clone()
 		stk.AssumeCond(cond)
-		if !ex.eng.feasible(stk) {
+		feas := ex.eng.feasible
+		if visits[b] > 3 {
+			feas = ex.eng.feasibleSolver
+		}
+		if !feas(stk) {
 			continue
 		}
 		frk := fr.fork()
